@@ -7,6 +7,7 @@ package ugo
 import (
 	"fmt"
 	"io"
+	"math"
 	"reflect"
 
 	"github.com/ozanh/ugo/internal"
@@ -477,8 +478,20 @@ func (c *Compiler) addConstant(obj Object) (index int) {
 		}
 	}()
 
-	switch obj.(type) {
-	case Int, Uint, String, Bool, Float, Char, *UndefinedType:
+	switch v := obj.(type) {
+	case Float:
+		if v == 0 && math.Signbit(float64(v)) {
+			// -0.0 and 0.0 are the same map key but different constants
+			index = len(c.constants)
+			c.constants = append(c.constants, obj)
+			return
+		}
+		i, ok := c.constsCache[obj]
+		if ok {
+			index = i
+			return
+		}
+	case Int, Uint, String, Bool, Char, *UndefinedType:
 		i, ok := c.constsCache[obj]
 		if ok {
 			index = i
